@@ -37,7 +37,11 @@ RULE = (
     "raises, an inner finally_action whose action raises, a raising do_on_dispose callback, a using() resource whose "
     "dispose raises); that exception may come out of dispose()/subscribe() or escape into the emitter and is tolerated "
     "(draining continues); the judged action must still run exactly once per terminated/disposed subscription at tick "
-    "min(terminal, disposal); non-trivial there: the upstream teardown actually raised. Distinct = distinct case JSON."
+    "min(terminal, disposal); non-trivial there: the upstream teardown actually raised. Check `do2`: two subscriptions (generated subscribe ticks and "
+    "dispose points each) to ONE application of a do_* operator (do(observer) excluded: the Observer object is user-owned "
+    "and stops itself); each subscription's trace equals the bare one, the callbacks saw the notifications of both "
+    "subscriptions in global order, and with a single raising callback only the subscription whose notification it was gets "
+    "on_error while the other trace is unchanged. Distinct = distinct case JSON."
 )
 ASSUMPTIONS = [
     "raising teardown: only exceptions raised UPSTREAM of the judged finally operator are injected and judged; a judged finally action that itself raises is not generated (unspecified). For using() a resource left undisposed after its inner subscription's dispose() raised is recorded as a class, not judged (only a double release fails)",
@@ -706,6 +710,112 @@ def _run_do(case):
 
 
 # ---------------------------------------------------------------------------------------
+# (c') do_* family, two subscriptions to ONE operator application (per-subscription behaviour)
+
+
+def _do2_world(case, variant, arm):
+    lab = Lab()
+    lab.arm = {arm[0]: {arm[1]}} if arm else {}
+    src = lab.source(case["src"])
+    c2 = dict(case)
+    c2["variant"] = variant
+    o = _do_apply(lab, src, c2)
+    if o is None:
+        return None
+    probes = _drive(lab, lambda i: o, case["subs"])
+    return lab, probes, src
+
+
+def _run_do2(case):
+    v = case["variant"]
+    w = _do2_world(case, v, None)
+    if w is None:
+        return SKIP("no-" + v)
+    blab, bps, bsrc = _do2_world(case, "bare", None)
+    lab, ps, src = w
+    if lab.inconclusive or blab.inconclusive:
+        return SKIP(lab.inconclusive or blab.inconclusive)
+    if blab.escaped is not None:
+        raise HarnessError(f"bare world escaped {blab.escaped!r}")
+    tag = v + ":2subs"
+    if lab.escaped is not None:
+        return FAIL(f"{tag}:escaped:{type(lab.escaped).__name__}", f"{lab.escaped!r}; case={case}")
+    Bs = [bp.trace() for bp in bps]
+    for i, p in enumerate(ps):
+        if p.trace() != Bs[i]:
+            return FAIL(f"{tag}:trace-changed", f"subscription {i}: with operator {p.trace()} != bare {Bs[i]}; case={case}")
+    if src.subs != bsrc.subs:
+        return FAIL(f"{tag}:subscription-changed", f"source subscriptions {src.subs} != bare {bsrc.subs}; case={case}")
+    # all notifications of the bare world in global order: [seq, probe index, local index, tick, kind, payload]
+    M = sorted([e[3], i, j, e[0], e[1], e[2]] for i, bp in enumerate(bps) for j, e in enumerate(bp.events))
+    mask = case.get("mask", [True, True, True])
+    log = lab.cb_log
+
+    def calls(slot):
+        return [[e[0], e[3]] for e in log if e[2] == slot]
+
+    def want(kinds, with_arg=True):
+        return [[m[3], [m[5]] if with_arg and m[4] != "C" else []] for m in M if m[4] in kinds]
+
+    if v in ("do_action", "do_observer", "do_fluent", "do_action_fluent"):
+        for slot, on, exp in (("on_next", mask[0], want("N")), ("on_error", mask[1], want("E")), ("on_completed", mask[2], want("C"))):
+            if on and calls(slot) != exp:
+                return FAIL(f"{tag}:callback-saw|{slot}", f"{slot} calls {calls(slot)} expected {exp}; case={case}")
+    elif v == "do_after_next":
+        if calls("after_next") != want("N"):
+            return FAIL(f"{tag}:callback-saw", f"after_next calls {calls('after_next')} expected {want('N')}; case={case}")
+    elif v in ("do_on_terminate", "do_after_terminate"):
+        exp = want("EC", with_arg=False)
+        if calls(v[3:]) != exp:
+            return FAIL(f"{tag}:callback-saw", f"{v[3:]} calls {calls(v[3:])} expected {exp}; case={case}")
+    elif v == "do_on_subscribe":
+        exp = [[s_[0], []] for s_ in bsrc.subs]
+        if calls("on_subscribe") != exp:
+            return FAIL(f"{tag}:callback-saw", f"on_subscribe calls {calls('on_subscribe')} expected {exp}; case={case}")
+    elif v == "do_on_dispose":
+        exp = sorted([_end_tick(bp), []] for bp in bps if _end_tick(bp) is not None)
+        if sorted(calls("on_dispose")) != exp:
+            return FAIL(f"{tag}:callback-saw", f"on_dispose calls {calls('on_dispose')} expected {exp}; case={case}")
+    # single-fault enumeration: the subscription whose notification it was gets on_error, the other one is untouched
+    faults = 0
+    kinds_of = {"on_next": "N", "after_next": "N", "on_error": "E", "on_completed": "C", "on_terminate": "EC"}
+    for slot in sorted(lab.cb_count):
+        if slot not in _ARMABLE:
+            continue
+        targets = [m for m in M if m[4] in kinds_of[slot]]
+        for k in range(lab.cb_count[slot]):
+            flab, fps, fsrc = _do2_world(case, v, (slot, k))
+            if flab.inconclusive:
+                continue
+            if not flab.injected:
+                return FAIL(f"{tag}:fault-not-reached", f"harness: armed ({slot},{k}) did not raise; case={case}")
+            if k >= len(targets):
+                raise HarnessError(f"position ({slot},{k}) has no notification in the bare world")
+            faults += 1
+            if flab.escaped is not None:
+                return FAIL(f"{tag}:fault-escaped|{slot}", f"{flab.escaped!r} escaped instead of on_error; case={case} arm={[slot, k]}")
+            _, pi, j, tick, _, _ = targets[k]
+            raise_seq = [e[1] for e in flab.cb_log if e[2] == slot][k]
+            for i, fp in enumerate(fps):
+                if i != pi:
+                    exp = Bs[i]
+                else:
+                    exp = [list(e) for e in (Bs[i][: j + 1] if slot == "after_next" else Bs[i][:j])]
+                    if fp.dispose_start_seq is None or fp.dispose_start_seq > raise_seq:
+                        exp.append([tick, "E", ["exc", f"inj:{slot}:{k}"]])
+                if fp.trace() != exp:
+                    which = "faulted" if i == pi else "other"
+                    return FAIL(f"{tag}:fault-trace|{slot}|{which}", f"callback {slot}#{k} raised for subscription {pi}: subscription {i} saw {fp.trace()} expected {exp}; case={case}")
+    cls = _classes(ps, case) + ["two-subscriptions"]
+    overlap = len(bsrc.subs) == 2 and bsrc.subs[0][1] is not None and bsrc.subs[1][0] <= bsrc.subs[0][1] or (len(bsrc.subs) == 2 and bsrc.subs[0][1] is None)
+    if overlap:
+        cls.append("subscriptions-overlap")
+    if faults:
+        cls.append("callback-fault")
+    return OK(all(len(b) >= 1 for b in Bs) and len(Bs) == 2, cls)
+
+
+# ---------------------------------------------------------------------------------------
 # strategies
 
 _src = st.fixed_dictionaries(
@@ -787,10 +897,22 @@ def _teardown_cases(draw):
     }
 
 
+@st.composite
+def _do2_cases(draw):
+    src = draw(_src)
+    # do(observer) is excluded: the Observer object is user-owned and stops itself after its first terminal
+    v = draw(st.sampled_from([x for x in _DO_VARIANTS if x != "do_observer"]))
+    case = {"variant": v, "src": src, "post": None, "subs": [draw(_sub(src)), draw(_sub(src))]}
+    if v in ("do_action", "do_observer", "do_fluent", "do_action_fluent"):
+        case["mask"] = draw(st.lists(st.booleans(), min_size=3, max_size=3))
+    return case
+
+
 def checks(tier):
     return [
         Check("using", _run_using, strategy=_using_cases(), examples={"quick": 2400, "thorough": 16 * 20000}, shards={"quick": 4, "thorough": 16}),
         Check("finally", _run_finally, strategy=_finally_cases(), examples={"quick": 3000, "thorough": 16 * 20000}, shards={"quick": 4, "thorough": 16}),
         Check("teardown", _run_teardown, strategy=_teardown_cases(), examples={"quick": 1600, "thorough": 16 * 10000}, shards={"quick": 4, "thorough": 16}),
+        Check("do2", _run_do2, strategy=_do2_cases(), examples={"quick": 1200, "thorough": 16 * 10000}, shards={"quick": 4, "thorough": 16}),
         Check("do", _run_do, strategy=_do_cases(), examples={"quick": 2400, "thorough": 16 * 20000}, shards={"quick": 4, "thorough": 16}),
     ]
